@@ -198,6 +198,10 @@ _MASKS = [
     re.compile(rb'<FontBBox value="[^"]*"/>'),
 ]
 
+# head.flags bit 1 ("left sidebearing point at x=0") is recalculated by maxp.recalc() from glyf and hmtx when
+# recalcBBoxes is on: the dump prints the flags as two groups of eight binary digits, bit 1 is the 15th digit
+_HEAD_FLAGS = re.compile(rb'(<flags value="[01]{8} [01]{6})[01]([01]"/>)')
+
 
 # computed fields (otConverters.ComputedInt: counts, struct lengths) are dumped as a comment line
 # '<!-- XCount=n -->' when set; compile() recomputes them and some preWrite()s reset them on the object
@@ -208,6 +212,7 @@ _COMPUTED = re.compile(rb"^[ \t]*<!-- \w+=-?\d+ -->[ \t]*\r?\n", re.M)
 def _mask(xml):
     for r in _MASKS:
         xml = r.sub(b"<masked/>", xml)
+    xml = _HEAD_FLAGS.sub(rb"\1x\2", xml)
     return _COMPUTED.sub(b"", xml)
 
 
